@@ -29,3 +29,9 @@ Print Assumptions C07_gaussian2d_budget.
 
 Example C07_example : g1d_total 100 4 8 = 25%Z /\ g1d_total 101 (11 # 2) 4 = 18%Z.
 Proof. vm_compute. split; reflexivity. Qed.
+
+From Coq Require Import String.
+Theorem C07_formula_variables_are_the_request :
+  (random_bindings = equi_bindings) /\ List.length g1d_bindings = 3%nat /\ List.length g2d_bindings = 5%nat.
+Proof. rewrite random_bindings_pinned, equi_bindings_pinned, g1d_bindings_pinned, g2d_bindings_pinned. repeat split. Qed.
+Print Assumptions C07_formula_variables_are_the_request.
